@@ -27,6 +27,9 @@ func WithGlobals(globals map[string]any) Option {
 	return func(vm *VirtualMachine) {
 		for name, value := range globals {
 			vm.inputGlobals[name] = value
+			if vm.currentGlobals != nil {
+				vm.currentGlobals[name] = true
+			}
 		}
 	}
 }
